@@ -34,10 +34,16 @@ type scase struct {
 	Cfg   config   `json:"config"`
 	Lines []string `json:"lines"`
 	CLI   bool     `json:"cli"`
+	// Extra: further script files given to the same invocation of the binary
+	Extra [][]string `json:"extra,omitempty"`
 }
 
 func (c scase) String() string {
-	return fmt.Sprintf("%s | cfg=%+v cli=%v", strings.Join(c.Lines, " ; "), c.Cfg, c.CLI)
+	x := ""
+	for _, e := range c.Extra {
+		x += " || " + strings.Join(e, " ; ")
+	}
+	return fmt.Sprintf("%s%s | cfg=%+v cli=%v", strings.Join(c.Lines, " ; "), x, c.Cfg, c.CLI)
 }
 
 // numberProbes gives every probe command its own line number as argument, so
@@ -199,6 +205,9 @@ func runCLI(root string, c scase) (exit int, out string) {
 		args = append(args, "-continue")
 	}
 	args = append(args, file)
+	for i, e := range c.Extra {
+		args = append(args, tsh.WriteScript(dir, fmt.Sprintf("s%d.txt", i+2), scriptText(e)))
+	}
 	cmd := exec.Command(filepath.Join(os.Getenv("VERIF_BIN"), "testscript"), args...)
 	// PATH holds only the helper directory (first element): without a go command
 	// the binary skips gotooltest.Setup
@@ -266,6 +275,28 @@ func treeDiff(want, got map[string]string) string {
 
 // check compares one script; returns (class, description).
 func check(root string, c scase, st *stats) (string, string) {
+	if c.CLI && len(c.Extra) > 0 {
+		// several scripts in one invocation: exit 0 exactly when none failed
+		anyFail := false
+		var verdicts []string
+		for _, lines := range append([][]string{c.Lines}, c.Extra...) {
+			p := predict(c.Cfg, archiveFiles, lines)
+			if p.Verdict == "unspecified" {
+				return "", ""
+			}
+			verdicts = append(verdicts, p.Verdict)
+			anyFail = anyFail || p.Verdict == "fail"
+		}
+		exit, out := runCLI(root, c)
+		if st != nil {
+			atomic.AddInt64(&st.scripts, int64(len(verdicts)))
+			atomic.AddInt64(&st.cli, int64(len(verdicts)))
+		}
+		if (exit == 0) == anyFail {
+			return "cli-exit-status", fmt.Sprintf("cmd/testscript given %d scripts exits %d, but their verdicts are %v; output:\n%s", len(verdicts), exit, verdicts, out)
+		}
+		return "", ""
+	}
 	pred := predict(c.Cfg, archiveFiles, c.Lines)
 	if st != nil {
 		atomic.AddInt64(&st.scripts, 1)
@@ -436,7 +467,7 @@ func realMain() {
 		var rec func(cur []string)
 		rec = func(cur []string) {
 			if len(cur) > 0 {
-				cases = append(cases, scase{cfg, append([]string(nil), cur...), cli})
+				cases = append(cases, scase{Cfg: cfg, Lines: append([]string(nil), cur...), CLI: cli})
 			}
 			if len(cur) == n {
 				return
@@ -473,10 +504,10 @@ func realMain() {
 	setups := []string{"env K=x", "mkdir n", "cd d", "chmod 444 f", "cp f h", "symlink l -> f", "rm f", "exec hecho x err"}
 	for _, s := range setups {
 		for _, l := range f2 {
-			cases = append(cases, scase{def, []string{s, l, "ok"}, false})
+			cases = append(cases, scase{Cfg: def, Lines: []string{s, l, "ok"}})
 			if th {
 				for _, l2 := range f2 {
-					cases = append(cases, scase{def, []string{s, l, l2}, false})
+					cases = append(cases, scase{Cfg: def, Lines: []string{s, l, l2}})
 				}
 			}
 		}
@@ -494,12 +525,12 @@ func realMain() {
 	}
 	for _, cfg := range []config{def, coe, {Panic: true}} {
 		for _, s := range hpidScripts() {
-			cases = append(cases, scase{cfg, s, false})
+			cases = append(cases, scase{Cfg: cfg, Lines: s})
 		}
 	}
 	for _, cfg := range []config{def, {Panic: true}} {
 		for _, s := range namedWaits() {
-			cases = append(cases, scase{cfg, s, false})
+			cases = append(cases, scase{Cfg: cfg, Lines: s})
 		}
 	}
 	// the command-line binary: built-ins and exec only (it has no custom commands)
@@ -510,6 +541,18 @@ func realMain() {
 	}
 	addAll(def, cliAlpha, ncli, true)
 	addAll(coe, cliAlpha, 2, true)
+	// several script files in one invocation (the failure flag is shared)
+	multi := [][]string{{"exists f"}, {"exists nofile"}, {"skip"}, {"stop"}, {"exec hexit 3"}, {"exists f", "skip", "exists nofile"}, {"! exec hexit 0", "skip"}}
+	for _, cfg := range []config{def, coe} {
+		for _, a := range multi {
+			for _, b := range multi {
+				cases = append(cases, scase{Cfg: cfg, Lines: a, CLI: true, Extra: [][]string{b}})
+				for _, c3 := range multi {
+					cases = append(cases, scase{Cfg: cfg, Lines: a, CLI: true, Extra: [][]string{b, c3}})
+				}
+			}
+		}
+	}
 
 	st := &stats{}
 	var next int64 = -1
